@@ -25,6 +25,8 @@ where
     /// engine name of Map<u8, Self, u8> and of Map<u8, Map<u8, Self, u8>, u8>
     const MAPNAME: &'static str;
     const NESTED_MAPNAME: &'static str;
+    /// ... and of Map<u8, Map<u8, Map<u8, Self, u8>, u8>, u8>
+    const NESTED2_MAPNAME: &'static str;
     /// the closure body handed to Map::update for this command
     fn gen_nested(v: &Self, ctx: AddCtx<u8>, cmd: &Value) -> <Self as CmRDT>::Op;
     fn proj_tree(t: &Tree, d: &Dims) -> Value;
@@ -50,6 +52,7 @@ impl MVal for MVReg<u8, u8> {
     const TAG: &'static str = "mv";
     const MAPNAME: &'static str = "map_mv";
     const NESTED_MAPNAME: &'static str = "map_map_mv";
+    const NESTED2_MAPNAME: &'static str = "map_map_map_mv";
     fn gen_nested(v: &Self, ctx: AddCtx<u8>, cmd: &Value) -> crdts::mvreg::Op<u8, u8> {
         v.write(cmd["v"].as_u64().unwrap() as u8, ctx)
     }
@@ -98,6 +101,7 @@ impl MVal for Orswot<u8, u8> {
     const TAG: &'static str = "or";
     const MAPNAME: &'static str = "map_or";
     const NESTED_MAPNAME: &'static str = "map_map_or";
+    const NESTED2_MAPNAME: &'static str = "map_map_map_or";
     fn gen_nested(v: &Self, ctx: AddCtx<u8>, cmd: &Value) -> crdts::orswot::Op<u8, u8> {
         let m = cmd["m"].as_u64().unwrap() as u8;
         match cmd["c"].as_str().unwrap() {
@@ -235,7 +239,8 @@ where
 {
     const TAG: &'static str = "map";
     const MAPNAME: &'static str = V::NESTED_MAPNAME;
-    const NESTED_MAPNAME: &'static str = "map_map_map";
+    const NESTED_MAPNAME: &'static str = V::NESTED2_MAPNAME;
+    const NESTED2_MAPNAME: &'static str = "map_map_map_map";
     fn gen_nested(v: &Self, ctx: AddCtx<u8>, cmd: &Value) -> Op<u8, V, u8> {
         let k = cmd["k"].as_u64().unwrap() as u8;
         match cmd["c"].as_str().unwrap() {
@@ -511,7 +516,7 @@ where
     <V as CmRDT>::Validation: Debug,
     <V as CvRDT>::Validation: Debug,
 {
-    fn random_cmd(s: &Self::S, rng: &mut rand::rngs::StdRng, d: &Dims) -> Option<Value> {
+    fn random_cmd(s: &Self::S, _r: usize, rng: &mut rand::rngs::StdRng, d: &Dims) -> Option<Value> {
         Some(<Map<u8, V, u8> as MVal>::random_cmd(s, rng, d))
     }
 }
